@@ -202,6 +202,12 @@ Evaluable(c) ==
     /\ StoichTargets(c) \subseteq M!VarSet(c)
     /\ \A s \in DOMAIN c.sur : DOMAIN c.sur[s].st \subseteq M!SeqRange(c.sur[s].outs)
 
+\* the stoichiometry table at the declared initial state, non-zero entries only
+StoichNZ(c) ==
+    LET S == M!Stoichiometry(c, M!InitialValues(c), 0)
+        rows == [v \in DOMAIN S |-> [f \in {g \in DOMAIN S[v] : S[v][g] # 0} |-> S[v][f]]]
+    IN [v \in {w \in DOMAIN rows : DOMAIN rows[w] # {}} |-> rows[v]]
+
 Obs(c) ==
     [ids  |-> Ids(c),
      vars |-> c.vars,
@@ -211,6 +217,7 @@ Obs(c) ==
               THEN [kind |-> {"ok"},
                     args |-> [n \in M!Reported(c) |-> M!InitEnv(c)[n]],
                     rhs  |-> M!Rhs(c, M!InitialValues(c), 0),
+                    stoich |-> StoichNZ(c),
                     init |-> M!InitialValues(c),
                     parvals |-> M!ParameterValues(c),
                     static |-> M!Static(c)]
@@ -268,6 +275,8 @@ StMenu(cc) ==
     \cup {(pr[1] :> Num(2)) @@ (pr[2] :> Num(0 - 1)) :
               pr \in {q \in VarsOf(cc) \X VarsOf(cc) : q[1] # q[2]}}
     \cup {(v :> [k |-> "calc", fn |-> "id", args |-> <<p>>]) : v \in VarsOf(cc), p \in DOMAIN cc.pars}
+    \cup {(v :> [k |-> "calc", fn |-> "neg", args |-> <<v>>]) : v \in VarsOf(cc)}       \* state-dependent
+    \cup {(v :> [k |-> "calc", fn |-> "inc", args |-> <<"time">>]) : v \in VarsOf(cc)}  \* time-dependent
 
 SurMenu(cc) ==
     LET W == VarsOf(cc) IN
@@ -359,6 +368,10 @@ SeedContent(s) ==
                                                          st |-> (a :> Num(0 - 1)) @@ (cN :> Num(1))])]
          [] s = "named" -> [base EXCEPT !.rxn = (cN :> [fn |-> "inc", args |-> <<a>>,
                                                         st |-> (a :> [k |-> "calc", fn |-> "id", args |-> <<b>>])])]
+         [] s = "dyn"   -> [base EXCEPT !.vars = <<a, cN>>, !.init = (a :> Num(2)) @@ (cN :> Num(3)),
+                                        !.rxn = ("r" :> [fn |-> "mul", args |-> <<a, b>>,
+                                                         st |-> (a :> [k |-> "calc", fn |-> "neg", args |-> <<cN>>])
+                                                                @@ (cN :> Num(1))])]
          [] s = "sur"   -> [base EXCEPT !.sur = (cN :> [fns |-> <<"inc", "dbl">>, args |-> <<a>>, outs |-> <<"o1", "o2">>,
                                                         st |-> ("o1" :> (a :> Num(1)))])]
          [] s = "surd"  -> [base EXCEPT !.sur = ("s" :> [fns |-> <<"inc", "dbl">>, args |-> <<b>>, outs |-> <<"o1", "o2">>,
